@@ -52,10 +52,9 @@ def run(seed, tier, replay=None):
     n_dists = 300 if tier == "quick" else 5000
     cases = []
     if replay is not None:
-        cases.append((replay["ys"], replay["ws"], replay["a"], replay["b"]))
-        cases[0] = tuple(
-            [C.unhex(v) for v in x] if isinstance(x, list) else (None if x is None else C.unhex(x))
-            for x in cases[0])
+        v = (replay.get("violation") or {}).get("input") or replay
+        cases.append(([C.unhex(x) for x in v["ys"]], None if v.get("ws") is None else [C.unhex(x) for x in v["ws"]],
+                      C.unhex(v["a"]), C.unhex(v["b"])))
         n_dists = 0
     for _ in range(n_dists):
         cases.append(gen_case(rng, 40))
